@@ -5,7 +5,7 @@ patch="$1"; shift
 W=/tmp/mutrepo_$$
 git -C /repo worktree add -q --detach "$W" HEAD || exit 2
 # add-only export files a builder has not handed over yet (untracked in /repo) belong to the tree under test
-for f in $(git -C /repo ls-files --others --exclude-standard | grep 'verif_export[^/]*\.go$'); do
+for f in $(git -C /repo ls-files --others --exclude-standard | grep 'verif_[^/]*\.go$'); do
   mkdir -p "$W/$(dirname "$f")"; cp "/repo/$f" "$W/$f"
 done
 if ! git -C "$W" apply "$patch"; then echo "PATCH DOES NOT APPLY"; git -C /repo worktree remove --force "$W"; exit 2; fi
